@@ -155,7 +155,10 @@ def processOp (lim : Limits) (w : WState) (t : OpType) (pred : Option BlobPred) 
     | .restoreActiveBlob => do
         let s ← w.store.restoreActive
         .ok { w with store := s }
-    | .tryDumpBlobIndexes => .ok (tryRunDump w).1
+    | .tryDumpBlobIndexes =>
+        -- since the repair of E27: a request that finds a dump task running is deferred, not dropped
+        let (w1, started) := tryRunDump w
+        if started then .ok w1 else .ok (deferDump w1)
     | .tryFsyncData => .ok (tryRunFsync w).1
     | .tryUpdateActiveBlob =>
         let (w1, switched) := tryUpdateActive lim w
